@@ -327,10 +327,35 @@ def wopts_real(wopts):
     return kw
 
 
+def poke(root, path):
+    """follow a path produced by iso_snap.mutables (".attr", "[key]", "[i]") and change that object in place"""
+    import re
+    o = root
+    for m in re.finditer(r"\.(\w+)|\[('(?:[^'\\\\]|\\\\.)*'|\d+)\]", path):
+        if m.group(1) is not None:
+            o = getattr(o, m.group(1))
+        else:
+            k = m.group(2)
+            o = o[int(k)] if k.isdigit() else o[eval(k)]
+    if isinstance(o, dict):
+        o["__poke__"] = "x"
+    elif isinstance(o, list):
+        o.append(CaptionNode.create_text("poke"))
+    elif isinstance(o, Caption):
+        o.end = o.end + 1
+    elif isinstance(o, CaptionNode):
+        o.content = "poke"
+    elif hasattr(o, "__dict__"):
+        o.__dict__["poked"] = True
+
+
 def do_edit(cs, e):
     k = e[0]
     if k == "add_style":
         cs.add_style(e[1], dict(e[2]))
+        return
+    if k == "poke":                # directed search: mutate, in place, the object at a path of the object graph
+        poke(cs, e[1])
         return
     if k == "style_rule":          # mutate the rules dict of an existing selector in place
         cs.get_style(e[1])[e[2]] = e[3]
